@@ -7,6 +7,10 @@ import GceTcb.Drive.C05
 import GceTcb.Drive.C06
 import GceTcb.Drive.C07
 import GceTcb.Drive.C08
+import GceTcb.Drive.C07Evl
+import GceTcb.Drive.C07Dec
+import GceTcb.Drive.C08Sev
+import GceTcb.Drive.C08Tdx
 import GceTcb.Drive.C09
 import GceTcb.Drive.C10
 import GceTcb.Drive.C11
@@ -40,6 +44,10 @@ def dispatch (line : String) : String :=
     | "c06" => Drive.C06.handle f
     | "c07" => Drive.C07.handle f
     | "c08" => Drive.C08.handle f
+    | "c07evl" => Drive.C07Evl.handle f
+    | "c07dec" => Drive.C07Dec.handle f
+    | "c08sev" => Drive.C08Sev.handle f
+    | "c08tdx" => Drive.C08Tdx.handle f
     | "c09" => Drive.C09.handle f
     | "c10" => Drive.C10.handle f
     | "c11" => Drive.C11.handle f
